@@ -113,6 +113,7 @@ type FuncContract struct {
 	Trusted    string
 	AllowPanic bool
 	TrackLocks bool
+	RelockHavoc []string // map types whose heaps become arbitrary when a mutex is re-acquired (track-locks relock-havoc)
 	DataflowOnly string // non-empty: only contract-derived obligations are generated (no nil/bounds/overflow/frame/panic checks)
 	Notes      []string
 	CallSites  map[string]*CallSiteSpec
@@ -736,6 +737,16 @@ func parseContractFile(path string, pc *PkgContracts) error {
 				// track-locks : Lock/Unlock (sync.Mutex, sync.RWMutex) update a ghost "held" bit per mutex location in
 				// this unit; clauses may use held(x.mu). Without it mutex operations are no-ops for the verifier.
 				cur.TrackLocks = true
+				// track-locks relock-havoc T1, T2 : interference at re-acquisition. When the unit takes a mutex that
+				// it has taken (and released) before on the same path, everything another goroutine may have done
+				// in between is modelled by giving the heaps of the listed (map) types arbitrary contents. The
+				// first acquisition is not affected (the entry state is arbitrary anyway). What the unit knows
+				// about guarded state from an earlier critical section is thereby forgotten - as it must be.
+				if rest := strings.TrimSpace(c.text); strings.HasPrefix(rest, "relock-havoc ") {
+					for _, m := range strings.Split(strings.TrimPrefix(rest, "relock-havoc "), ",") {
+						cur.RelockHavoc = append(cur.RelockHavoc, strings.TrimSpace(m))
+					}
+				}
 			case "allow-panic":
 				cur.AllowPanic = true
 			case "note":
